@@ -1,6 +1,6 @@
 """Per-property configuration of the checks (parts, bounds, non-triviality rules, evidence text)."""
 
-HARNESS_SOURCES = ["main.cc", "engine_poly.cc", "engine_tet.cc", "engine_hex.cc", "mon_hist.cc", "mon_c12.cc"]
+HARNESS_SOURCES = ["main.cc", "engine_poly.cc", "engine_tet.cc", "engine_hex.cc", "mon_hist.cc", "mon_c12.cc", "mon_iter.cc"]
 
 def cnt(js, k):
     return js.get("cnt", {}).get(k, 0)
@@ -59,6 +59,31 @@ PROPS = {
   "min_counts": {"prop.value-checks": 200000, "prop.default-checks": 2000},
   "assumptions": COMMON_ASSUME,
  },
+ "C04": {
+  "level": "exploration",
+  "technique": "id-labelled reference model across collect_garbage / leaving deferred mode / StatusAttrib::garbage_collection (marks, manifoldness pass, tracked handles); shadow property values; both deferred and immediate runs compared with the same model",
+  "parts": [
+    {"name": "dbg", "flavor": "asan-dbg", "monitor": "C04", "cases": {"quick": 1500, "thorough": 20000}},
+    {"name": "rel", "flavor": "asan-rel", "monitor": "C04", "cases": {"quick": 300, "thorough": 4000}},
+  ],
+  "nontrivial": {"fn": hist_rule(lambda js: (cnt(js, "op.status_gc") + cnt(js, "op.collect_garbage")) >= 2 and cnt(js, "checkpoints.with-pending") >= 1),
+                 "text": "case = generated mesh with live properties, mostly in deferred mode, history of deletions, kernel collect_garbage, enable_deferred_deletion(false) and StatusAttrib::garbage_collection (random marks on all four kinds, manifoldness flag, tracked handle lists of all four kinds incl. empty/duplicate/invalid/deleted-slot handles). The model applies closure + (optionally) the manifold cascade in id space; mesh, property values and every tracked handle are compared afterwards. non-trivial = >=2 collections, pending deletions present at some checkpoint, a live cell; distinct by operation digest"},
+  "floor": {"quick": 300, "thorough": 4000},
+  "min_counts": {"tracked.survivors": 2000, "tracked.removed": 500, "op.status_gc.manifold": 200, "prop.value-checks": 100000},
+  "assumptions": COMMON_ASSUME + ["tracked handles are only passed within the documented domain (invalid or in range)"],
+ },
+ "C05": {
+  "level": "exploration",
+  "technique": "protocol oracle over all six entity iterators and all circulator kinds (content vs brute-force scan; laps, begin/end, valid(), range-for, backward stepping, arithmetic) on states reached by generated histories",
+  "parts": [
+    {"name": "dbg", "flavor": "asan-dbg", "monitor": "C05", "cases": {"quick": 600, "thorough": 12000}},
+  ],
+  "nontrivial": {"fn": lambda js: cnt(js, "circulators") >= 100 and cnt(js, "circ.back-steps") >= 200,
+                 "text": "case = history as C01 (mostly deferred mode so that deleted entities sit at the front/middle/end of the arrays; every 50th case an (almost) empty mesh); at several states ALL live centres of ALL 26 circulator kinds (+tet/hex ones) and the six entity iterators are checked: one lap equals the brute-force incident (multi)set or the defined sequence, laps 1..3 repeat, range end == begin advanced, k forward + j backward steps land on the recorded position (exhaustive for <=8 positions, sampled above), ++/--/+/-/+=/-= agree, empty centres are immediately invalid. non-trivial = >=100 circulators and >=200 backward steps checked in the case; distinct by operation digest"},
+  "floor": {"quick": 200, "thorough": 4000},
+  "min_counts": {"circulators": 200000, "circulators.empty-centre": 1000, "entity-iterators": 5000, "circ.back-steps": 1000000},
+  "assumptions": COMMON_ASSUME + ["valid() is not judged after an iterator left the valid range and came back (handle and lap are)", "faces of valence 0 and centres outside the mesh are outside the domain"],
+ },
  "C09": {
   "level": "exploration",
   "technique": "brute-force fan classifier and successor relation around every edge compared with halfedge_halffaces order; in-cell adjacency vs unique-candidate scan; after every step of histories",
@@ -108,6 +133,10 @@ LEVEL_TEXT = {
          "note": "trusted: the model's 30-line closure computation, identity carried by monitor-owned tag properties (cross-checked by positions)"},
  "C03": {"text": "Runtime exploration: shadow copies of every property value keyed by stable entity id (and side) are compared after every step of histories that delete, collect, swap, clear and grow; sizes and default values of fresh slots are checked at the moment of growth.",
          "note": "trusted: value comparison through a lossless textual representation (%a for doubles); deleted-but-uncollected slots are not judged"},
+ "C04": {"text": "Runtime exploration: the reference model predicts in id space what every kind of collection must leave (closure of marks, manifold cascade); after the call the mesh, all property values and every tracked handle are compared; deferred and immediate runs share the model.",
+         "note": "trusted: the model's cascade (faces bounding no cell, then edges without face, then vertices without edge)"},
+ "C05": {"text": "Runtime exploration: every iterator/circulator kind is exercised on every live centre of thousands of reached states and compared with brute-force incident sets and with its own other protocols (the oracle needs no expected numbers).",
+         "note": "trusted: Scan; iterator copies compare with operator== of the library (also cross-checked by handle+lap)"},
  "C09": {"text": "Runtime exploration: the fan structure around every edge is recomputed by brute force after every step and the reported order is checked against the successor relation; adjacency in cells against the unique-candidate scan.",
          "note": "trusted: the fan classifier (only edges it accepts are judged); scan accessors"},
  "C12": {"text": "Runtime exploration with a differential twin: an all-incidences mesh and a partially-disabled, toggled mesh run the same call stream; equality handle for handle after every step, plus C01/C09 oracles on the toggled mesh and invalid-circulator probes.",
